@@ -26,6 +26,8 @@ Val(asz, s) ==
       [] s = "P1" -> Add(M, N8(1)) [] s = "U1" -> U64M1
 
 DataAt(n) == <<80 + n>>
+(* entry whose expression ends with a reference to DIE tgt (0 root, i the i-th child, 99 the last child) *)
+RefEnt(k, a, b, d, op, tgt) == [k |-> k, a |-> a, b |-> b, d |-> d, r |-> [op |-> op, tgt |-> tgt]]
 Alpha(asz, fam, n, lvl) ==
     LET V(x) == Val(asz, x)
         d == IF fam = "loc" THEN DataAt(n) ELSE <<>>
@@ -50,6 +52,11 @@ Alpha(asz, fam, n, lvl) ==
        \cup {Ent("slen", V(x[1]), V(x[2]), d) : x \in SL}
        \cup (IF fam = "loc" THEN {Ent("defloc", Z8, Z8, d)} ELSE {})
        \cup (IF fam = "loc" /\ full THEN {Ent("se", V("4096"), V("4112"), <<>>), Ent("opair", V("16"), V("32"), <<145, 127>>)} ELSE {})
+       \cup (IF fam = "loc" /\ (full \/ mid)
+             THEN {RefEnt("se", V("4096"), V("4112"), d, "call4", 1), RefEnt("opair", V("16"), V("32"), <<>>, "call_ref", 0)}
+                  \cup (IF full THEN {RefEnt("se", V("4096"), V("4112"), d, "call_ref", 1), RefEnt("slen", V("4096"), V("16"), d, "call4", 0),
+                                      RefEnt("defloc", Z8, Z8, d, "call4", 1)} ELSE {})
+             ELSE {})
 (* alphabet level for a list that is to reach length m *)
 Lvl(m) == IF m <= FullLen THEN "full" ELSE IF m <= MidLen THEN "mid" ELSE "core"
 
@@ -63,7 +70,9 @@ Pool(asz) ==
        [fam |-> "loc", L |-> <<Ent("se", V("4096"), V("4112"), <<81>>)>>],
        [fam |-> "loc", L |-> <<Ent("se", V("4096"), V("4112"), <<82>>)>>],
        [fam |-> "loc", L |-> <<Ent("base", V("4096"), Z8, <<>>), Ent("opair", V("16"), V("32"), <<83, 84>>)>>],
-       [fam |-> "loc", L |-> <<Ent("defloc", Z8, Z8, <<85>>)>>] >>
+       [fam |-> "loc", L |-> <<Ent("defloc", Z8, Z8, <<85>>)>>],
+       [fam |-> "loc", L |-> <<RefEnt("se", V("4096"), V("4112"), <<86>>, "call4", 99)>>],
+       [fam |-> "loc", L |-> <<RefEnt("se", V("4096"), V("4112"), <<86>>, "call_ref", 1)>>] >>
 (* (an empty range list, an invalid one, a based one, a plain one; location lists that differ only in the expression) *)
 
 Lps == {"none", "zero", "nz", "tomb"}
@@ -123,13 +132,19 @@ Inv ==
     LET encOf(fmt) == [ver |-> c.vc, asz |-> c.asz, fmt |-> fmt, le |-> TRUE]
         enc == encOf(32)
         lp  == LpOf(c.asz, c.lp)
-        bd  == Build(c.ls, 1, <<>>, <<>>, <<>>)
-        rej == \E i \in DOMAIN c.ls : MustReject(c.ls[i].L, enc, lp)
-        whys == {Why(c.ls[i].L, enc, lp) : i \in DOMAIN c.ls} \ {"none"}
-        mean == [i \in DOMAIN c.ls |-> Meaning(c.ls[i].L, enc, lp, c.ls[i].fam)]
+        nl  == Len(c.ls)
+        \* the script with "last child" references resolved
+        Res(L) == [j \in DOMAIN L |-> IF HasRef(L[j]) /\ L[j].r.tgt = 99 THEN [L[j] EXCEPT !.r.tgt = nl] ELSE L[j]]
+        ls  == [i \in DOMAIN c.ls |-> [fam |-> c.ls[i].fam, L |-> Res(c.ls[i].L)]]
+        bd  == Build(ls, 1, <<>>, <<>>, <<>>)
+        XL(L, fmt) == Expand(L, encOf(fmt), ModelOffs(encOf(fmt), lp, nl))
+        rej == \E i \in DOMAIN ls : MustReject(XL(ls[i].L, 32), enc, lp)
+        whys == {Why(ls[i].L, enc, lp) : i \in DOMAIN ls} \ {"none"}
+        MeanOf(fmt) == [i \in DOMAIN ls |-> Meaning(XL(ls[i].L, fmt), encOf(fmt), lp, ls[i].fam)]
         PredOf(fmt) ==
             LET e == encOf(fmt)
-                w == WriteUnit(bd.rt, bd.lt, e, lp) IN
+                mean == MeanOf(fmt)
+                w == WriteUnit([i \in DOMAIN bd.rt |-> XL(bd.rt[i], fmt)], [i \in DOMAIN bd.lt |-> XL(bd.lt[i], fmt)], e, lp) IN
             IF ~w.ok THEN [fmt |-> fmt, ok |-> FALSE, err |-> w.err]
             ELSE [fmt |-> fmt, ok |-> TRUE, rsec |-> w.rsec, lsec |-> w.lsec,
                   offs |-> [i \in DOMAIN c.ls |-> IF c.ls[i].fam = "rng" THEN w.roffs[bd.ids[i]] ELSE w.loffs[bd.ids[i]]],
